@@ -23,11 +23,15 @@ from ..ref import files as F
 
 ID = 'C18'
 LEVEL = 'fault_enumeration'
-DECIDING = ['offsets_enumerated', 'reads_raised', 'reads_returned_prefix', 'writer_selfcheck_ok', 'archive_offsets_enumerated']
+DECIDING = ['offsets_enumerated', 'reads_raised', 'reads_returned_prefix', 'writer_selfcheck_ok', 'archive_offsets_enumerated',
+            'cuts_exactly_at_a_record_boundary', 'cuts_in_a_later_file_after_complete_first_file', 'recovery_reads']
 RULE = ('crash points: a file of a small synthetic file set (2 replicas, 5-7 configurations; rwms 1.4/1.6/2.0, ms.dat energy density / '
         'plaquette / Qtop, gfms Qtop Wilson+Zeuthen / GF coupling, ms5_xsf, sfcf o/c/a, Hadrons hdf5) or an exported archive (json, dobs, pobs, csv; '
         'gz and plain) is cut at byte k; thorough enumerates every k in 0..len-1 of every file of every generated set (counter '
         'offsets_enumerated; files_fully_enumerated counts the files), quick every record/field boundary +-1 and ~200 seeded random offsets per file; '
+        'every file of a multi-file set is cut in turn (counter cuts_in_a_later_file_after_complete_first_file: state carried from the complete first file), every '
+        'record boundary is cut exactly in both tiers (cuts_exactly_at_a_record_boundary), and after the cuts of a case the restored complete set must read back '
+        'completely (recovery_reads: no state kept from truncated reads); '
         'outcome must be an exception or exactly the expectation for the n(k) complete records before the cut; a crash point is non-trivial when '
         'the reader was actually run on the cut file and its outcome classified; distinct = (format, reader variant, file-set digest, file, offset)')
 ASSUMPTIONS = ['writers and their boundary tables are validated byte-for-byte against the sample files (C17 self-check)',
@@ -224,6 +228,12 @@ def case_binary(ctx, kind, idx, rng):
             n = F.n_complete(b, k)
             ntot = len(b['records'])
             where = where_binary(b, k)
+            if k == b['header_end'] or any(k == x['end'] for x in b['records']):
+                ctx.count('cuts_exactly_at_a_record_boundary')
+            # position of the cut file in the order in which the reader opens the files (state carried between files)
+            ctx.cell(kind, 'file-%d-of-%d' % (sorted(S.reps, key=lambda x: F.natural_key(S.files[x])).index(r) + 1, len(S.reps)))
+            if r != sorted(S.reps, key=lambda x: F.natural_key(S.files[x]))[0]:
+                ctx.count('cuts_in_a_later_file_after_complete_first_file')
             for vname, call, expect, judge in variants:
                 # one tag per reader code path: the plaquette option shares the loop of the energy-density reader,
                 # Wilson / Zeuthen Qtop and the GF coupling share the sfqcd loop of _read_flow_obs
@@ -264,6 +274,20 @@ def case_binary(ctx, kind, idx, rng):
         if cur is not None:
             with open(os.path.join(d, S.files[cur]), 'wb') as f:
                 f.write(S.bytes[cur])
+        # recovery: after all those failed / partial reads the complete set must read back completely (no state kept)
+        for vname, call, expect, judge in variants:
+            fmt = {'ms.dat': {'energy': 'ms.dat-energy', 'energy-plaquette': 'ms.dat-energy', 'qtop': 'ms.dat-qtop'}.get(vname)}.get(kind, kind)
+            ctx.ev()
+            ctx.count('recovery_reads')
+            try:
+                res = call()
+            except Exception as e:
+                if ctx.classify_exception(e)[0] != 'library':
+                    raise
+                ctx.violation('%s:complete-set-unreadable-after-truncated-reads' % fmt, {'exception': repr(e)[:200]})
+                continue
+            if not matches(judge, ctx, res, expect({})):
+                ctx.violation('%s:state-left-by-truncated-read' % fmt, {'reader': vname})
 
 
 # ------------------------------------------------------------------------------------------------
@@ -357,6 +381,13 @@ def case_sfcf(ctx, kind, idx, rng):
             with open(os.path.join(d, rel), 'wb') as f:
                 f.write(content[rel][:k])
             inf = S.info[rel]
+            if layout == 'a':
+                if any(k == e0 for c_, s0, e0, i_ in inf['chunks']):
+                    ctx.count('cuts_exactly_at_a_record_boundary')
+            elif any(k in (b_['start'], b_['data_end'], b_['end']) for b_ in inf['blocks']):
+                ctx.count('cuts_exactly_at_a_record_boundary')
+            if inf['rep'] != min(S.reps) or (layout != 'a' and inf['cfg'] != S.cfgs[inf['rep']][0]):
+                ctx.count('cuts_in_a_later_file_after_complete_first_file')
             for key, im in vkeys[rel]:
                 vname = '%s:%s' % ('/'.join(str(x) for x in key), 'im' if im else 're')
                 E.point(vname, setdig, rel, k)
@@ -427,6 +458,23 @@ def case_sfcf(ctx, kind, idx, rng):
         if cur is not None:
             with open(os.path.join(d, cur), 'wb') as f:
                 f.write(content[cur])
+        done = set()
+        for rel, _ in mine:
+            for key, im in vkeys[rel]:
+                if (key, im) in done:
+                    continue
+                done.add((key, im))
+                ctx.ev()
+                ctx.count('recovery_reads')
+                try:
+                    res = S.read(d, key, **({'im': True} if im else {}))
+                except Exception as e:
+                    if ctx.classify_exception(e)[0] != 'library':
+                        raise
+                    ctx.violation('%s:complete-set-unreadable-after-truncated-reads' % fmt, {'exception': repr(e)[:200]})
+                    continue
+                if not matches(R.judge_sfcf(S, key, im), ctx, res, S.expect(key, im=im)):
+                    ctx.violation('%s:state-left-by-truncated-read' % fmt, {'key': list(key)})
 
 
 # ------------------------------------------------------------------------------------------------
@@ -493,6 +541,16 @@ def case_hadrons(ctx, kind, idx, rng):
         if cur is not None:
             with open(os.path.join(d, S.files[cur]), 'wb') as f:
                 f.write(content[cur])
+        ctx.ev()
+        ctx.count('recovery_reads')
+        try:
+            res = hd.read_hd5(os.path.join(d, S.stem), S.ens, 'meson', attrs=k0, part=part_)
+            if not matches(judge, ctx, res, full):
+                ctx.violation('hadrons:state-left-by-truncated-read', {})
+        except Exception as e:
+            if ctx.classify_exception(e)[0] != 'library':
+                raise
+            ctx.violation('hadrons:complete-set-unreadable-after-truncated-reads', {'exception': repr(e)[:200]})
 
 
 # ------------------------------------------------------------------------------------------------
